@@ -5,6 +5,7 @@ import (
 	"errors"
 	"fmt"
 	"math/big"
+	"sync"
 
 	"github.com/vipnode/vipnode/v2/pool"
 	"github.com/vipnode/vipnode/v2/pool/store"
@@ -13,6 +14,10 @@ import (
 
 // ErrWithdrawDisabled is returned when the PaymentService is initialized in read-only mode.
 var ErrWithdrawDisabled = errors.New("withdraw is disabled")
+
+// ErrWithdrawInProgress is returned when the account already has a withdraw
+// request that is being settled.
+var ErrWithdrawInProgress = errors.New("withdraw already in progress for this account")
 
 // WithdrawBalanceMinimumError is returned when the account balance is below
 // the configured minimum to withdraw.
@@ -49,6 +54,30 @@ type PaymentService struct {
 	WithdrawFee func(*big.Int) *big.Int
 	// WithdrawMin (optional) is the minimum amount required to allow a withdraw.
 	WithdrawMin *big.Int
+
+	withdrawMu  sync.Mutex
+	withdrawing map[store.Account]struct{} // Accounts with a withdrawal being settled
+}
+
+// startWithdraw marks the account as having a withdrawal in progress, it
+// returns false if there already is one.
+func (p *PaymentService) startWithdraw(account store.Account) bool {
+	p.withdrawMu.Lock()
+	defer p.withdrawMu.Unlock()
+	if _, ok := p.withdrawing[account]; ok {
+		return false
+	}
+	if p.withdrawing == nil {
+		p.withdrawing = map[store.Account]struct{}{}
+	}
+	p.withdrawing[account] = struct{}{}
+	return true
+}
+
+func (p *PaymentService) finishWithdraw(account store.Account) {
+	p.withdrawMu.Lock()
+	defer p.withdrawMu.Unlock()
+	delete(p.withdrawing, account)
 }
 
 func (p *PaymentService) verify(sig string, method string, wallet string, nonce int64, args ...interface{}) error {
@@ -109,7 +138,14 @@ func (p *PaymentService) Withdraw(ctx context.Context, sig string, wallet string
 		return ErrWithdrawDisabled
 	}
 
+	// One withdrawal per account at a time, so that two requests can't both
+	// settle the same balance.
 	account := store.Account(wallet)
+	if !p.startWithdraw(account) {
+		return ErrWithdrawInProgress
+	}
+	defer p.finishWithdraw(account)
+
 	balance, err := p.BalanceStore.GetAccountBalance(account)
 	if err != nil {
 		return err
@@ -135,5 +171,8 @@ func (p *PaymentService) Withdraw(ctx context.Context, sig string, wallet string
 		return err
 	}
 	logger.Printf("Withdraw from account %q for %d: %s", account, total, txID)
-	return nil
+
+	// The credit was paid out with the settlement, take it off the books so
+	// that it can't be withdrawn again.
+	return p.BalanceStore.AddAccountBalance(account, new(big.Int).Neg(&balance.Credit))
 }
